@@ -142,7 +142,15 @@ def run(ctx):
             if sizes[0] + sizes[1] < 2 or sizes[2] + sizes[3] < 2:
                 continue
             for kind in want[ranks]:
-                dl.append("%d %d %s %s %s" % (kind, p, mat_line(M), " ".join(map(str, rowpart)), " ".join(map(str, colpart))))
+                # for Delta- and Y-sums the last token tells the harness whether the matrix is 3-connected (only then
+                # are the components of a TU matrix minors of it, hence TU); it can only withdraw that one demand
+                tc = " %d" % gen.three_connected(M, p) if kind in (3, 4) else ""
+                dl.append("%d %d %s %s %s%s" % (kind, p, mat_line(M), " ".join(map(str, rowpart)), " ".join(map(str, colpart)), tc))
+                # the same call with some of the optional output arrays NULL / given (nothing but the resource
+                # behaviour is judged then: this feeds C11, C18, C19 through their collectors)
+                if rng.below(4) == 0:
+                    dl.append("%d %d %s %s %s 1 %d" % (kind, p, mat_line(M), " ".join(map(str, rowpart)),
+                                                      " ".join(map(str, colpart)), 1 + rng.below(63)))
 
     for p, alpha in ((2, (0, 1)), (3, (-1, 0, 1))):
         for (m, n) in ((2, 2), (2, 3), (3, 2)) + (((3, 3),) if (p == 2 or not q) else ()):
